@@ -342,8 +342,12 @@ class _Marshaller:
         for name in x.co_varnames:
             self.dump_string(name)
 
-        self.dump(x.co_freevars)
-        self.dump(x.co_cellvars)
+        # ... and so must "freevars" and "cellvars"
+        for names in (x.co_freevars, x.co_cellvars):
+            self._write(TYPE_TUPLE)
+            self.w_long(len(names))
+            for name in names:
+                self.dump_string(name)
         self.dump_string(x.co_filename)
         self.dump_string(x.co_name)
         self.w_long(x.co_firstlineno)
